@@ -82,6 +82,11 @@ prop("C05", "E-GEN",
      "1130 roots with one or two reference sites from all 8 reference positions at the root, in a property or in an array item x all 16 subsets of 4 closed definitions (incl. chains object -> object -> string) x 0-2 unreferenced extra types: UsedUserTypes() must equal the names in the root text without duplicates and regardless of registration, Check() must report 1302 naming a missing type exactly when a name reachable through registered definitions is unregistered, and unreferenced valid types must change no observable.",
      "Excluded: registered but unreachable types that refer to unregistered types.")
 
+prop("C08", "E-GEN",
+     "bounded exhaustive enumeration of accepted schema projects; example validated against the generated OpenAPI schema by an independent Schema-Object validator",
+     "Every accepted project with a root value from the families of C01 (typed values x 8 positions = value variations), C03 (plain JSON incl. escapes), C04 (annotated models), C05 (reference sites), C07 (allOf graphs) and key-shortcut x additionalProperties combinations (316k accepted projects quick): Example() succeeds and is RFC 8259; the conversion of the root and of every registered type succeeds and is JSON; each is a well-formed OpenAPI 3.0 Schema Object (keyword set, value types, resolvable $ref); the example is a valid instance with $ref resolved into the components map.",
+     "Validator: JSON Schema draft-4 semantics + nullable, exact-decimal multipleOf, format as annotation; written for this check and cross-checked against python jsonschema in the thorough tier.")
+
 ORDER = ["C%02d" % i for i in range(1, 21)]
 
 def main():
